@@ -558,6 +558,29 @@ func (r *runner) roundTrips(bi int, ac arenaCfg, step, mi int, m *capnp.Message,
 		}
 		if d := vwalk.Compare(exp, readBack(m2), "root"); d != "" {
 			emit(J{"beh": bi, "arena": ac.Name, "step": step, "m": mi, "path": path, "diff": d})
+			return
+		}
+		// a received message can be built upon: allocating new objects in it (in each of its segments) does not disturb
+		// what is there, and the message still serialises to the same value
+		for si := int64(0); si < m2.NumSegments() && si < 4; si++ {
+			seg, err := m2.Segment(capnp.SegmentID(si))
+			if err != nil {
+				continue
+			}
+			if _, err := capnp.NewData(seg, bytes.Repeat([]byte{0xEE}, 20)); err != nil {
+				continue
+			}
+			if d := vwalk.Compare(exp, readBack(m2), "root"); d != "" {
+				emit(J{"beh": bi, "arena": ac.Name, "step": step, "m": mi, "path": path + ":then-alloc", "diff": "after allocating 20 bytes in segment " + fmt.Sprint(si) + " of the received message: " + d})
+				return
+			}
+		}
+		if b3, err := m2.Marshal(); err == nil {
+			if m3, err := capnp.Unmarshal(b3); err == nil {
+				if d := vwalk.Compare(exp, readBack(m3), "root"); d != "" {
+					emit(J{"beh": bi, "arena": ac.Name, "step": step, "m": mi, "path": path + ":then-alloc-remarshal", "diff": d})
+				}
+			}
 		}
 	}
 	check("marshal", func() (*capnp.Message, error) {
